@@ -55,6 +55,16 @@ def run(tier, seed, replay=None):
             want_N, want_M = N, M
         if guess is not None: ops["guess"] = guess
         desc["guess"] = guess is not None
+        if rng.random() < 0.3:          # the contract is relative: scale one operand by a power of ten
+            sc = rng.choice([1e-6, 1e-3, 1e3, 1e6]); desc["scale"] = sc
+            k0 = list(ops.keys())[-1] if "guess" not in ops else list(ops.keys())[-2]
+            ops[k0] = ops[k0] * sc
+            if routine in ("fast_matvec", "amen_mv"):
+                x = ops["x"]; exact = A @ x
+            elif routine == "dmrg_hadamard":
+                y = ops["y"]; exact = x * y
+            else:
+                B = ops["B"]; exact = A @ B
         kd = routine + ("+guess" if guess is not None else "") + (" singleton-mode" if singleton else "")
         dist[kd] = dist.get(kd, 0) + 1
         if i % 20 == 0 and len(samples) < 5: samples.append(desc)
